@@ -1,1 +1,238 @@
--- property theorems for C06 (stub)
+import RP.Lemmas.HandsIter
+import RP.Lemmas.KSubsets
+/-! # C06 — Exhaustive iterators visit every situation exactly once; class counts are exact
+
+Model: `RP/Model/Hands.lean` (`HandIterator`, `ObservationIterator`, `IsomorphismIterator`,
+`Observation::children`), specification: `RP/Spec/Hands.lean` (`ksubsets`: the `k`-subsets of the
+unblocked cards in increasing order). Lemmas: `RP/Lemmas/{Gosper,HandsIter,KSubsets}.lean`.
+The Burnside arithmetic is in `RP/Props/C06Burnside.lean`. -/
+namespace RP.C06
+open RP.Bits RP.Hands RP.Spec
+
+/-! ## the model's `permute` is the source's `permute` -/
+
+/-- the hand-written `permute` coincides with the definition regenerated from
+`src/cards/hands.rs` by `tools/extractors/c06.py` (breaks when the source line sequence changes) -/
+theorem permute_eq_generated : ∀ x, permute x = RP.Gen.C06.permute x := fun _ => rfl
+
+/-! ## ① `permute` increases; the loops terminate; nothing overflows -/
+
+/-- `permute x > x` for every word -/
+theorem permute_gt (x : Nat) : x < permute x := by
+  unfold permute
+  simp only []
+  have h1 : x ≤ x ||| (x - 1) := Nat.left_le_or
+  have h2 : (x ||| (x - 1)) + 1 ≤ ((x ||| (x - 1)) + 1) ||| ((not64 (x ||| (x - 1)) &&& ((x ||| (x - 1)) + 1)) - 1) >>> (1 + tzW 64 x) :=
+    Nat.left_le_or
+  omega
+
+example : permute 0b0111 = 0b1011 ∧ permute 0b1110 = 0b10011 := by decide
+
+/-- **advance_terminates**: from a valid, non-exhausted state (`k ≥ 1` cards, effective mask below
+`2^52`) the skip loop of `advance` stops before its fuel is used up, at the least word above
+`next` with `k` bits and no masked bit; this word is below `2^53` (top bit ≤ 52), the state
+invariant is kept, and every word handed to `permute` on the way is in `(0, 2^53)`, where
+`permute_no_overflow` applies. -/
+theorem advance_terminates (k m : Nat) (hk : 1 ≤ k) (hm : m < 2^52) (s : HandIter) (hs : HInv k m s)
+    (hne : s.next < 2^52) :
+    HInv k m s.advance ∧ s.next < s.advance.next ∧ s.advance.next < 2^53 ∧
+    s.advance.next &&& m = 0 ∧
+    (∀ y, s.next < y → popW 64 y = k → y &&& m = 0 → s.advance.next ≤ y) ∧
+    (∀ a ∈ s.next :: skipArgs (fun y => y &&& s.mask == 0) SKIP_FUEL (permute s.next), 0 < a ∧ a < 2^53) :=
+  advance_spec k m hk hm s hs hne
+
+/-- every `permute` call of the construction and of every later `advance` receives a word on which
+no `u64` operation overflows or underflows -/
+theorem C06_reachable_no_overflow (a : Nat) (h : 0 < a ∧ a < 2^63) :
+    1 ≤ a ∧ (a ||| (a - 1)) + 1 < 2^64 ∧
+    1 ≤ (not64 (a ||| (a - 1)) &&& ((a ||| (a - 1)) + 1)) ∧ 1 + tzW 64 a < 64 :=
+  permute_no_overflow a h.1 h.2
+
+/-! ## the deck and the blocked cards -/
+
+/-- the cards the iterator never deals: the mask restricted to the deck (`Hand::from`), plus the
+sixteen low cards in the short deck -/
+def blocked (short : Bool) (mask : Nat) : Nat := effMask short (handOf short mask)
+
+/-- `y` is a `k`-card hand of the configured deck that avoids `mask` -/
+def IsHand (short : Bool) (k mask y : Nat) : Prop :=
+  popW 64 y = k ∧ y &&& mask = 0 ∧ y &&& handMask short = y
+
+theorem handMask_testBit (short : Bool) (i : Nat) :
+    (handMask short).testBit i = (decide (i < 52) && (!short || decide (16 ≤ i))) := by
+  cases short
+  · show (2^52 - 1).testBit i = _
+    rw [Nat.testBit_two_pow_sub_one]; simp
+  · show (2^16 * (2^36 - 1) + 0).testBit i = _
+    rw [Nat.testBit_two_pow_mul_add _ (by decide), Nat.testBit_two_pow_sub_one]
+    by_cases h : i < 16
+    · simp [h]
+    · by_cases h2 : i < 52
+      · have : i - 16 < 36 := by omega
+        simp [h, h2, this]; omega
+      · have : ¬ i - 16 < 36 := by omega
+        simp [h, h2, this]
+
+theorem handOf_lt (short : Bool) (n : Nat) : handOf short n < 2^52 := by
+  unfold handOf
+  apply Nat.and_lt_two_pow
+  cases short <;> decide
+
+theorem blocked_lt (short : Bool) (mask : Nat) : blocked short mask < 2^52 :=
+  effMask_lt short _ (handOf_lt short mask)
+
+theorem blocked_testBit (short : Bool) (mask i : Nat) :
+    (blocked short mask).testBit i =
+      ((mask.testBit i && (handMask short).testBit i) || (short && decide (i < 16))) := by
+  unfold blocked effMask handOf
+  cases short
+  · simp
+  · show ((mask &&& handMask true) ||| (2^16 - 1)).testBit i = _
+    rw [Nat.testBit_or, Nat.testBit_and, Nat.testBit_two_pow_sub_one]; simp
+
+theorem isHand_iff (short : Bool) (k mask y : Nat) :
+    IsHand short k mask y ↔ (popW 64 y = k ∧ y &&& blocked short mask = 0 ∧ y < 2^52) := by
+  unfold IsHand
+  constructor
+  · rintro ⟨h1, h2, h3⟩
+    have hy : y < 2^52 := by
+      rw [← h3]; apply Nat.and_lt_two_pow; cases short <;> decide
+    refine ⟨h1, ?_, hy⟩
+    rw [and_eq_zero_iff_testBit] at h2 ⊢
+    intro i hi
+    have hH : (handMask short).testBit i = true := by
+      have := congrArg (fun n => n.testBit i) h3
+      simp only [Nat.testBit_and, hi, Bool.true_and] at this
+      exact this
+    rw [blocked_testBit, h2 i hi]
+    rw [handMask_testBit] at hH
+    cases short <;> simp_all
+  · rintro ⟨h1, h2, h3⟩
+    rw [and_eq_zero_iff_testBit] at h2
+    have hsub : y &&& handMask short = y := by
+      apply Nat.eq_of_testBit_eq
+      intro i
+      rw [Nat.testBit_and]
+      cases hi : y.testBit i
+      · rfl
+      · have hb := h2 i hi
+        rw [blocked_testBit] at hb
+        have hlt : i < 52 := by
+          apply Nat.lt_of_not_le
+          intro hle
+          have : y < 2^i := Nat.lt_of_lt_of_le h3 (Nat.pow_le_pow_right (by omega) hle)
+          rw [Nat.testBit_lt_two_pow this] at hi; exact absurd hi (by simp)
+        rw [handMask_testBit]
+        cases short <;> simp_all
+    refine ⟨h1, ?_, hsub⟩
+    rw [and_eq_zero_iff_testBit]
+    intro i hi
+    have hb := h2 i hi
+    have hH : (handMask short).testBit i = true := by
+      have := congrArg (fun n => n.testBit i) hsub
+      simp only [Nat.testBit_and, hi, Bool.true_and] at this
+      exact this
+    rw [blocked_testBit, hH] at hb
+    simp at hb
+    exact hb.1
+
+/-- `Hand::from` in `look` changes nothing on a hand the iterator can stand on -/
+theorem look_id (short : Bool) (mask y : Nat) (hy : y < 2^52) (h : y &&& blocked short mask = 0) :
+    handOf short y = y :=
+  ((isHand_iff short (popW 64 y) mask y).mpr ⟨rfl, h, hy⟩).2.2
+
+/-! ## ① soundness and ② completeness of `HandIterator` (k ≥ 1) -/
+
+theorem hands_unfold (short : Bool) (k mask : Nat) :
+    hands short k mask = unfold (HandIter.step short) (2^52) (HandIter.init short k (handOf short mask)) := rfl
+
+/-- characterisation of the yielded list: strictly increasing, and its members are exactly the
+`k`-card hands of the deck that avoid the mask -/
+theorem hands_spec (short : Bool) (k mask : Nat) (hk : 1 ≤ k) (hk64 : k < 64) :
+    List.Pairwise (· < ·) (hands short k mask) ∧
+    ∀ y, y ∈ hands short k mask ↔ IsHand short k mask y := by
+  obtain ⟨hinv, hleast, _⟩ := init_spec short k (handOf short mask) hk hk64
+  have hm := blocked_lt short mask
+  have hpos := pos_of_pop hk hinv.pop
+  obtain ⟨p1, p2⟩ := unfold_hands short k (blocked short mask) hk hm
+    (fun y hy h => look_id short mask y hy h) (2^52) _ hinv (by omega)
+  rw [hands_unfold]
+  refine ⟨p1, fun y => ?_⟩
+  rw [p2 y, isHand_iff]
+  constructor
+  · rintro ⟨q1, q2, q3, _⟩; exact ⟨q1, q2, q3⟩
+  · rintro ⟨q1, q2, q3⟩; exact ⟨q1, q2, q3, hleast y q1 q2⟩
+
+/-- **C06_hands_sound** (k ≥ 1): the yielded list is strictly increasing (hence duplicate-free),
+every element has `k` cards, avoids the mask, consists of cards of the configured deck (in the
+short deck: none of the sixteen low cards) and lies below `2^52`. -/
+theorem C06_hands_sound (short : Bool) (k mask : Nat) (hk : 1 ≤ k) (hk64 : k < 64) :
+    List.Pairwise (· < ·) (hands short k mask) ∧
+    ∀ y ∈ hands short k mask,
+      popW 64 y = k ∧ y &&& mask = 0 ∧ y &&& handMask short = y ∧ y < 2^52 := by
+  obtain ⟨p1, p2⟩ := hands_spec short k mask hk hk64
+  refine ⟨p1, fun y hy => ?_⟩
+  have h := (p2 y).mp hy
+  exact ⟨h.1, h.2.1, h.2.2, ((isHand_iff short k mask y).mp h).2.2⟩
+
+/-- **gosper_least** (②): `permute x` is the least `y > x` with the popcount of `x`
+(`0 < x < 2^63`), it fits in 64 bits and has the same popcount. -/
+theorem gosper_least (x : Nat) (hx : 0 < x) (hlt : x < 2^63) :
+    x < permute x ∧ permute x < 2^64 ∧ popW 64 (permute x) = popW 64 x ∧
+    ∀ y, x < y → popW 64 y = popW 64 x → permute x ≤ y :=
+  gosper_step_least x hx hlt
+
+/-- **C06_hands_complete** (②, k ≥ 1): the yielded list *is* the increasing list of the
+`k`-subsets of the unblocked cards — every such hand exactly once, in increasing order. -/
+theorem C06_hands_complete (short : Bool) (k mask : Nat) (hk : 1 ≤ k) (hk64 : k < 64) :
+    hands short k mask = ksubsets 52 k (blocked short mask) := by
+  obtain ⟨p1, p2⟩ := hands_spec short k mask hk hk64
+  apply pairwise_lt_ext _ _ p1 (ksubsets_sorted _ _ _)
+  intro y
+  rw [p2 y, isHand_iff, mem_ksubsets]
+  constructor
+  · rintro ⟨q1, q2, q3⟩
+    exact ⟨q3, by rw [← popW_eq_of_lt q3 (by omega : 52 ≤ 64)]; exact q1, q2⟩
+  · rintro ⟨q1, q2, q3⟩
+    exact ⟨by rw [popW_eq_of_lt q1 (by omega : 52 ≤ 64)]; exact q2, q3, q1⟩
+
+/-- the number of cards the iterator may deal -/
+def nFree (short : Bool) (mask : Nat) : Nat := 52 - popW 52 (blocked short mask)
+
+/-- **C06_hands_count** (②, k ≥ 1): as many hands as the binomial coefficient says -/
+theorem C06_hands_count (short : Bool) (k mask : Nat) (hk : 1 ≤ k) (hk64 : k < 64) :
+    (hands short k mask).length = Nat.choose (nFree short mask) k := by
+  rw [C06_hands_complete short k mask hk hk64, length_ksubsets]; rfl
+
+/-! ## KF-C06-k0 — what the code does for `k = 0`, and how it deviates -/
+
+/-- the code yields **nothing** for `k = 0` (the initial word is `0`, which counts as exhausted) -/
+theorem C06_hands_k0 (short : Bool) (mask : Nat) : hands short 0 mask = [] := by
+  have h0 : (HandIter.init short 0 (handOf short mask)).next = 0 := by
+    rw [init_next]
+    show skipUntil _ (2^53) 0 = 0
+    have : initStop (effMask short (handOf short mask)) 0 = true := by
+      rw [initStop_iff]; right; left; rfl
+    rw [show (2:Nat)^53 = (2^53 - 1) + 1 from by norm_num]
+    simp only [skipUntil, this, if_true]
+  rw [hands_unfold, show (2:Nat)^52 = (2^52 - 1) + 1 from by norm_num]
+  simp only [unfold]
+  rw [step_exhausted short _ (Or.inl h0)]
+
+/-- the deviation: the property (and the iterator's own `size_hint`, `C(n,0) = 1`) asks for one
+hand, the empty one -/
+theorem C06_k0_deviation (short : Bool) (mask : Nat) :
+    ksubsets 52 0 (blocked short mask) = [0] ∧ hands short 0 mask ≠ ksubsets 52 0 (blocked short mask) := by
+  refine ⟨rfl, ?_⟩
+  rw [C06_hands_k0]; simp [ksubsets]
+
+-- non-vacuity: five free cards {0,3,4,5,6} of the standard deck, k = 2 (the walk visits all C(52,2) words)
+example : hands false 2 (2^52 - 1 - 0b1111001) = [9, 17, 24, 33, 40, 48, 65, 72, 80, 96] := by decide +kernel
+example : ksubsets 52 2 (blocked false (2^52 - 1 - 0b1111001)) = [9, 17, 24, 33, 40, 48, 65, 72, 80, 96] := by decide +kernel
+example : nFree false (2^52 - 1 - 0b1111001) = 5 ∧ Nat.choose 5 2 = 10 := by decide +kernel
+-- short deck: single cards start at 6c (bit 16); 36 cards
+example : (hands true 1 0).head? = some 0x10000 ∧ (hands true 1 0).length = 36 := by decide +kernel
+example : nFree true 0 = 36 ∧ nFree false 0 = 52 := by decide +kernel
+example : hands false 0 0 = [] ∧ ksubsets 52 0 0 = [0] := by decide +kernel
+
+end RP.C06
